@@ -101,6 +101,13 @@ func (header *Header) Validate(ctx context.Context, opts ...ValidationOption) er
 				}
 			}
 		}
+	} else if vo := getValidationOptions(ctx); !vo.examplesValidationDisabled {
+		// no schema to check the values against: the example objects themselves must still be valid
+		for _, k := range componentNames(header.Examples) {
+			if err := header.Examples[k].Validate(ctx); err != nil {
+				return fmt.Errorf("%s: %w", k, err)
+			}
+		}
 	}
 
 	if content := header.Content; content != nil {
